@@ -58,7 +58,10 @@ type C12Case struct {
 var c12Targets = [][]Target{
 	{{Var: "ARGS_GET"}}, {{Var: "ARGS_GET", Key: "a"}}, {{Var: "ARGS"}}, {{Var: "ARGS"}, {Var: "ARGS", Key: "b", Neg: true}},
 	{{Var: "ARGS_GET"}, {Var: "ARGS_GET", Key: "a", Neg: true}}, {{Var: "ARGS_GET", Key: "^a", Rx: true}}, {{Var: "ARGS_GET", Count: true}},
-	{{Var: "ARGS_GET"}, {Var: "ARGS_GET"}}, {{Var: "ARGS_GET_NAMES"}}, {{Var: "ARGS_NAMES"}}, {{Var: "ARGS_GET", Key: "b"}, {Var: "ARGS_GET"}},
+	{{Var: "ARGS_GET"}, {Var: "ARGS_GET"}}, {{Var: "ARGS_GET_NAMES"}},
+	// counts of one collection that differ through an exclusion or a key: several numbers, possibly with the same digits
+	{{Var: "ARGS_GET", Count: true}, {Var: "ARGS_GET", Key: "a", Neg: true}}, {{Var: "ARGS_GET", Count: true}, {Var: "ARGS_GET", Key: "b", Neg: true}},
+	{{Var: "ARGS_GET", Count: true, Key: "a"}}, {{Var: "ARGS", Count: true}}, {{Var: "ARGS_GET", Count: true}}, {{Var: "ARGS_NAMES"}}, {{Var: "ARGS_GET", Key: "b"}, {Var: "ARGS_GET"}},
 	{{Var: "MATCHED_VARS"}}, {{Var: "MATCHED_VARS_NAMES"}}, {{Var: "RULE", Key: "id"}}, {{Var: "RULE", Key: "id"}},
 	{{Var: "REQUEST_URI"}}, {{Var: "REQUEST_HEADERS"}}, {{Var: "REQUEST_HEADERS", Key: "h"}}, {{Var: "TX", Key: "v"}}, {{Var: "QUERY_STRING"}},
 	{{Var: "ARGS_POST"}}, {{Var: "REQUEST_COOKIES"}}, {{Var: "ENV", Key: "VERIF_C12"}},
@@ -73,7 +76,17 @@ func genC12Rule(t *rapid.T, r *Rule, prefixes [][]string, changing *bool) {
 	}
 	count := r.Targets[0].Count
 	if count {
-		r.Op, r.Arg = "ge", "1"
+		// the (transformed) number is compared as text as well, so that a wrong number shows
+		switch rapid.IntRange(0, 3).Draw(t, "countop") {
+		case 0:
+			r.Op, r.Arg = "ge", "1"
+		case 1:
+			r.Op, r.Arg = "streq", rapid.SampledFrom([]string{"1", "2", "3", "4", "5", "31", "32", "33", "34", "35", "Mg==", "Mw==", "NA=="}).Draw(t, "countarg")
+		case 2:
+			r.Op, r.Arg = "rx", rapid.SampledFrom([]string{"^[135]", "[24]$", "^3[0-9]$", "^M"}).Draw(t, "countrx")
+		default:
+			r.Op, r.Arg = "contains", rapid.SampledFrom([]string{"2", "3", "4", "w"}).Draw(t, "countsub")
+		}
 	} else {
 		r.Op = rapid.SampledFrom([]string{"rx", "contains", "streq", "unconditionalMatch", "pm", "beginsWith", "rx"}).Draw(t, "op")
 		switch r.Op {
